@@ -76,6 +76,7 @@ def check(ctx):
     class Only(util.PrefixedCtx):
         def ob(self, rule, key, ok, site="", detail="", nontrivial=True, undecided=False):
             if rule == "R06.2": return super().ob(rule, key, ok, site, detail, nontrivial, undecided)
+            if rule == "R06.3" and "::gracefully_end_stream::" in key: return super().ob(rule, key, ok, site, detail, nontrivial, undecided)   # the end request reaches end_stream with the caller's id
             return ok
     C06.check(Only(ctx, "R07.3"))
     # ------------------------------------------------------------------ R07.4 end_stream
@@ -90,7 +91,7 @@ def check(ctx):
            "an answer is produced without cancelling the target: the stream drains and parks again instead of ending")
     if cs:
         tgt = show(dg.expr(cs[0][1]["args"][1]))
-        ctx.ob("R07.4", f"{k}|cancels-its-target", "stream_id" in tgt, body.loc(cs[0][0]), f"cancel_stream({tgt})")
+        ctx.ob("R07.4", f"{k}|cancels-its-target", "stream_id" in tgt and util.plain_forward(dg.expr(cs[0][1]["args"][1])), body.loc(cs[0][0]), f"cancel_stream({tgt}); required: the caller's stream id, unchanged")
         is_wake = lambda c: (c.get("resolved") or c.get("f")) == SM + "::wake_stream"
         h = S.wait_loop_of(body, is_wake)
         if h is None or not body.dominates(cs[0][0], h):
@@ -98,7 +99,7 @@ def check(ctx):
         else:
             wk = [(b, c) for (b, c) in body.calls if is_wake(c) and b in body.loops[h]]
             lo, hi = util.count_per_iteration(body, h, lambda b: any(b == x for (x, _) in wk))
-            ctx.ob("R07.4", f"{k}|wakes-every-iteration", lo >= 1 and all("stream_id" in show(dg.expr(c["args"][1])) for (_, c) in wk), body.loc(wk[0][0]), "the target is woken on every iteration of the wait loop")
+            ctx.ob("R07.4", f"{k}|wakes-every-iteration", lo >= 1 and all("stream_id" in show(dg.expr(c["args"][1])) and util.plain_forward(dg.expr(c["args"][1])) for (_, c) in wk), body.loc(wk[0][0]), "the target is woken on every iteration of the wait loop")
             def vacant_edge(x, y):
                 t = body.term(x)
                 if t[0] != "Switch" or t[5] != "bool": return False
@@ -121,7 +122,7 @@ def check(ctx):
     k = f"{STREAM} as std::ops::Drop::drop"
     body = Body(fx.fn(k)); dg = D.Dag(body)
     dr = [(b, c) for (b, c) in body.calls if c.get("fname") == "drop_resources"]
-    ok = len(dr) == 1 and util.on_every_return_path(body, dr[0][0]) and "stream_id" in show(dg.expr(dr[0][1]["args"][1]))
+    ok = len(dr) == 1 and util.on_every_return_path(body, dr[0][0]) and "stream_id" in show(dg.expr(dr[0][1]["args"][1])) and util.plain_forward(dg.expr(dr[0][1]["args"][1]))
     ctx.ob("R07.5", f"{k}|drop-gives-the-id-back", ok, f"{body.f['file']}:{body.f['line']}", "dropping a stream calls drop_resources(its own id) on every path")
     # every channel's cancel_all_streams is the manager's sweep
     import delegation
